@@ -7,6 +7,7 @@ import (
 	"strconv"
 	"strings"
 
+	"github.com/sdcio/yang-parser/xpath"
 	"github.com/sdcio/yang-parser/xpath/grammars/expr"
 
 	"verifharness/internal/core"
@@ -28,15 +29,15 @@ func init() {
 		rule: "cases = seeded random location paths (1-6 steps, up-steps, 0-3 predicates per step in any order, operands: literal, number, " +
 			"arithmetic, functions of scalars, functions with a path argument, absolute / current()-rooted / '..'-rooted paths; optional prefixes; " +
 			"roots: relative, absolute, current(), deref()) standing alone or embedded as operands of comparisons, arithmetic, boolean operators and " +
-			"functions (2-3 paths per expression), plus a small enumerated family (every root x 1-3 steps x every operand kind); each case compares the complete " +
-			"ordered call log of the recording mock tree and the result with the reference navigator; distinct_nontrivial = distinct expected call logs with at least one Navigate",
+			"functions (2-3 paths per expression), plus a small enumerated family (every root x 1-3 steps x every operand kind); each case compiles the expression once and evaluates the machine three times " +
+			"against trees holding different values, and every time compares the complete ordered call log of the recording mock tree and the result with the reference navigator; distinct_nontrivial = distinct expected call logs with at least one Navigate",
 		block: 128,
 		assumptions: []string{
 			"the mock tree answers every path with a leaf whose value is a function of the canonical path, so a wrong path shows up both in the call log and in the value",
 			"operand forms outside the property's stated domain (nested predicates in operands, [.=x], positional predicates, relative operands not starting with '..', deref() operands) are not generated",
 			"that the consumer's Navigate resolves '..' elements correctly is outside the repository",
 		},
-		minEvents: []string{"navigate_calls_observed", "paths_with_predicates", "deref_paths", "operand_paths"},
+		minEvents: []string{"navigate_calls_observed", "paths_with_predicates", "deref_paths", "operand_paths", "re_evaluations_of_a_compiled_machine"},
 	}})
 }
 
@@ -412,59 +413,98 @@ func (p *c02) Describe(tier string, seed int64, idx int) string {
 	return xp.Render(p.gen(tier, seed, idx), xp.RenderFull)
 }
 
+// c02AnswerSalted: the same shape of tree with different leaf values, for the
+// second and third evaluation of one compiled machine.
+func c02AnswerSalted(salt int) func(string) xp.Answer {
+	if salt == 0 {
+		return c02Answer
+	}
+	return func(path string) xp.Answer {
+		return xp.Answer{Kind: xp.AnsLeaf, Vals: []string{fmt.Sprintf("w%d%x", salt, core.Hash(fmt.Sprintf("%d|%s", salt, path))&0xffffff)}}
+	}
+}
+
+// c02Check compiles src once and evaluates the machine three times, against trees
+// with different values: every evaluation must ask for exactly the paths the
+// expression denotes on that tree (a compiled machine carries no path state from
+// one evaluation to the next).
 func c02Check(e *xp.Node, src string, res *core.CaseResult) {
-	ref := &refNav{answer: c02Answer}
-	want := ref.eval(e, nil)
-	res.Ev("paths_with_predicates", int64(ref.nPredPaths))
-	res.Ev("deref_paths", int64(ref.nDeref))
-	res.Ev("operand_paths", int64(ref.nOperandPaths))
 	m, err := expr.NewExprMachine(src, c02PfxMap)
 	if err != nil {
 		res.Fail("C02/compile-error", src, "supported location path rejected: "+core.Trunc(err.Error(), 400))
 		return
 	}
-	tree := &xpmock.Tree{Default: c02Answer}
+	for run := 0; run < 3; run++ {
+		if !c02CheckRun(m, run, e, src, res) {
+			return
+		}
+	}
+}
+
+func c02CheckRun(m *xpath.Machine, run int, e *xp.Node, src string, res *core.CaseResult) bool {
+	answer := c02AnswerSalted(run)
+	ref := &refNav{answer: answer}
+	want := ref.eval(e, nil)
+	if run == 0 {
+		res.Ev("paths_with_predicates", int64(ref.nPredPaths))
+		res.Ev("deref_paths", int64(ref.nDeref))
+		res.Ev("operand_paths", int64(ref.nOperandPaths))
+	} else {
+		res.Ev("re_evaluations_of_a_compiled_machine", 1)
+	}
+	tree := &xpmock.Tree{Default: answer}
 	o := xpmock.Run(m, tree)
 	for _, c := range tree.Calls {
 		if strings.HasPrefix(c, "Navigate ") {
 			res.Ev("navigate_calls_observed", 1)
 		}
 	}
-	res.Key(strings.Join(ref.calls, "\n"))
+	if run == 0 {
+		res.Key(strings.Join(ref.calls, "\n"))
+	}
 	class := func(kind string) string {
+		if run > 0 {
+			kind = "re-evaluation/" + kind
+		}
 		if ref.twoPathOperand {
 			return "C02/two-paths-in-one-predicate-operand"
 		}
 		return "C02/" + kind
 	}
+	in := src
+	if run > 0 {
+		in = fmt.Sprintf("%s   (evaluation %d of the same compiled machine)", src, run+1)
+	}
 	if strings.Join(tree.Calls, "\n") != strings.Join(ref.calls, "\n") {
-		res.Fail(class("call-log"), src, fmt.Sprintf("data-tree calls differ\n expected: %s\n observed: %s\n result: err=%q",
+		res.Fail(class("call-log"), in, fmt.Sprintf("data-tree calls differ\n expected: %s\n observed: %s\n result: err=%q",
 			strings.Join(ref.calls, " ; "), strings.Join(tree.Calls, " ; "), o.Err))
-		return
+		return false
 	}
 	if o.Panic != "" || o.Err != "" {
-		res.Fail(class("run-error"), src, "calls as expected but the run failed: "+o.Panic+o.Err)
-		return
+		res.Fail(class("run-error"), in, "calls as expected but the run failed: "+o.Panic+o.Err)
+		return false
 	}
 	var got xp.Val
 	if e.Kind == xp.KPath {
 		// the value of a path is the datum reported for the node
 		if o.Kind != "LITERAL" {
-			res.Fail(class("value"), src, "path value is not the literal datum the tree reported: kind "+o.Kind)
-			return
+			res.Fail(class("value"), in, "path value is not the literal datum the tree reported: kind "+o.Kind)
+			return false
 		}
 		got = xp.VNS([]string{o.Str})
 	} else {
 		v, ok := o.ScalarVal()
 		if !ok {
-			res.Fail(class("value"), src, "no scalar result, kind "+o.Kind)
-			return
+			res.Fail(class("value"), in, "no scalar result, kind "+o.Kind)
+			return false
 		}
 		got = v
 	}
 	if !xp.SameVal(got, want) {
-		res.Fail(class("value"), src, fmt.Sprintf("value: expected %s, observed %s", want, got))
+		res.Fail(class("value"), in, fmt.Sprintf("value: expected %s, observed %s", want, got))
+		return false
 	}
+	return true
 }
 
 func (p *c02) Run(tier string, seed int64, idx int) core.CaseResult {
